@@ -53,6 +53,8 @@ fn main() {
         }
         Some("seeds") => mode_seeds(&args[2]),
         Some("fuzz") => mode_fuzz(&args[2..]),
+        Some("selftest") => mode_selftest(),
+        Some("minimize") => mode_minimize(),
         _ => {
             eprintln!("usage: dxmon expand|seeds|fuzz ...");
             std::process::exit(64);
@@ -883,6 +885,15 @@ struct Finding {
 }
 
 fn check_one(entry: Entry, attr: &TokenStream, item: &TokenStream) -> (Option<Finding>, String) {
+    check_with(&run_once, entry, attr, item)
+}
+
+fn check_with(
+    run_once: &dyn Fn(Entry, &TokenStream, &TokenStream) -> Outcome,
+    entry: Entry,
+    attr: &TokenStream,
+    item: &TokenStream,
+) -> (Option<Finding>, String) {
     // returns (violation, outcome class)
     let mk = |kind: &'static str, detail: String| Finding {
         kind,
@@ -1133,5 +1144,217 @@ fn mode_fuzz(args: &[String]) {
             "samples": *samples.lock().unwrap(),
             "findings": fv,
         })
+    );
+}
+
+/// Canary for the C16 monitor: run it over deliberately broken fake expanders and report
+/// which kinds of finding it raised.
+fn mode_selftest() {
+    use std::cell::Cell;
+    let attr = TokenStream::new();
+    let item = TokenStream::from_str("struct X;").unwrap();
+    let fake = |f: &dyn Fn() -> TokenStream| -> Outcome {
+        match catch_unwind(AssertUnwindSafe(f)) {
+            Ok(t) => Outcome::Ok(t),
+            Err(_) => Outcome::Panic(LAST_PANIC.with(|p| p.borrow().clone())),
+        }
+    };
+    let mut kinds = Vec::new();
+    let mut rec = |r: (Option<Finding>, String)| kinds.push(r.0.map(|f| f.kind).unwrap_or("none"));
+    rec(check_with(&|_, _, _| fake(&|| panic!("boom")), Entry::Attr, &attr, &item));
+    rec(check_with(&|_, _, _| fake(&|| TokenStream::from_str("struct").unwrap()), Entry::Attr, &attr, &item));
+    rec(check_with(&|_, _, _| fake(&|| TokenStream::from_str("::core::compile_error!{\"\"}").unwrap()), Entry::Attr, &attr, &item));
+    let n = Cell::new(0);
+    rec(check_with(
+        &|_, _, _| {
+            n.set(n.get() + 1);
+            let k = n.get();
+            fake(&|| TokenStream::from_str(&format!("struct S{k};")).unwrap())
+        },
+        Entry::Attr,
+        &attr,
+        &item,
+    ));
+    rec(check_with(&|_, _, _| fake(&|| TokenStream::from_str("struct Fine;").unwrap()), Entry::Attr, &attr, &item));
+    println!("{}", json!({"kinds": kinds}));
+}
+
+// ---------------------------------------------------------------------------
+// minimisation of a C16 finding (greedy delta debugging on the token tree)
+// ---------------------------------------------------------------------------
+
+fn finding_class(entry: Entry, attr: &TokenStream, item: &TokenStream) -> Option<String> {
+    let valid = match entry {
+        Entry::Attr => syn::parse2::<syn::Item>(item.clone()).is_ok(),
+        Entry::Derive => syn::parse2::<syn::DeriveInput>(item.clone()).is_ok(),
+    };
+    if !valid {
+        return None;
+    }
+    let (f, _) = check_one(entry, attr, item);
+    f.map(|f| match f.kind {
+        "panic" | "panic-on-second-run" => {
+            // message + location
+            format!("{}|{}", f.kind, f.detail)
+        }
+        "output-not-items" => {
+            let msg = f.detail.split(':').next().unwrap_or("").to_string();
+            format!("{}|{}", f.kind, msg)
+        }
+        k => k.to_string(),
+    })
+}
+
+fn try_shrink(
+    which: usize, // 0 = attr, 1 = item
+    attr: &mut Vec<Node>,
+    item: &mut Vec<Node>,
+    entry: Entry,
+    class: &str,
+) -> bool {
+    let mut changed = false;
+    loop {
+        let mut progress = false;
+        let mut paths = Vec::new();
+        {
+            let t = if which == 0 { &*attr } else { &*item };
+            list_paths(t, &mut Vec::new(), &mut paths);
+        }
+        'outer: for path in paths {
+            // candidates: whole segments first, then single tokens, then group unwrapping
+            let (nseg, ntok) = {
+                let t = if which == 0 { &mut *attr } else { &mut *item };
+                let l = list_at(t, &path);
+                (segments(l).len(), l.len())
+            };
+            for mode in 0..3 {
+                let n = match mode {
+                    0 => nseg,
+                    _ => ntok,
+                };
+                for i in (0..n).rev() {
+                    let mut a2 = attr.clone();
+                    let mut i2 = item.clone();
+                    {
+                        let t = if which == 0 { &mut a2 } else { &mut i2 };
+                        let l = list_at(t, &path);
+                        match mode {
+                            0 => {
+                                let segs = segments(l);
+                                if i >= segs.len() {
+                                    continue;
+                                }
+                                let (s, e, _) = segs[i];
+                                l.drain(s..e);
+                            }
+                            1 => {
+                                if i >= l.len() {
+                                    continue;
+                                }
+                                l.remove(i);
+                            }
+                            _ => {
+                                if i >= l.len() {
+                                    continue;
+                                }
+                                if let Node::Group(_, inner) = l[i].clone() {
+                                    l.splice(i..i + 1, inner);
+                                } else {
+                                    continue;
+                                }
+                            }
+                        }
+                    }
+                    let ats = from_nodes(&a2);
+                    let its = from_nodes(&i2);
+                    if finding_class(entry, &ats, &its).as_deref() == Some(class) {
+                        *attr = a2;
+                        *item = i2;
+                        progress = true;
+                        changed = true;
+                        break 'outer;
+                    }
+                }
+            }
+        }
+        if !progress {
+            break;
+        }
+    }
+    changed
+}
+
+fn normalize_idents(ts: TokenStream, map: &mut BTreeMap<String, String>) -> TokenStream {
+    const KEEP: &[&str] = &[
+        "struct", "enum", "union", "impl", "for", "where", "pub", "crate", "fn", "const", "mut", "dyn", "Self", "self",
+        "derive_ex", "derive", "Ex", "ord", "partial_ord", "eq", "partial_eq", "hash", "debug", "default", "ignore",
+        "reverse", "key", "by", "bound", "dump", "transparent", "Copy", "Clone", "Debug", "Default", "Ord", "PartialOrd",
+        "Eq", "PartialEq", "Hash", "Deref", "DerefMut", "Neg", "Not", "Output", "type", "as", "in", "super", "_",
+        "__placeholder",
+    ];
+    let mut out = TokenStream::new();
+    for t in ts {
+        match t {
+            TokenTree::Group(g) => out.extend(std::iter::once(TokenTree::Group(Group::new(
+                g.delimiter(),
+                normalize_idents(g.stream(), map),
+            )))),
+            TokenTree::Ident(i) => {
+                let s = i.to_string();
+                let base = s.strip_suffix("Assign").unwrap_or(&s);
+                if KEEP.contains(&s.as_str()) || crate_binop(base) || s.starts_with("r#") {
+                    out.extend(std::iter::once(TokenTree::Ident(i)));
+                } else {
+                    let n = map.len();
+                    let m = map.entry(s).or_insert_with(|| format!("a{n}")).clone();
+                    out.extend(std::iter::once(TokenTree::Ident(Ident::new(&m, Span::call_site()))));
+                }
+            }
+            TokenTree::Literal(l) => {
+                let s = l.to_string();
+                if s.starts_with('"') {
+                    out.extend(std::iter::once(TokenTree::Literal(Literal::string("s"))));
+                } else {
+                    out.extend(std::iter::once(TokenTree::Literal(Literal::i32_unsuffixed(0))));
+                }
+            }
+            p => out.extend(std::iter::once(p)),
+        }
+    }
+    out
+}
+fn crate_binop(s: &str) -> bool {
+    matches!(s, "Add" | "BitAnd" | "BitOr" | "BitXor" | "Div" | "Mul" | "Rem" | "Shl" | "Shr" | "Sub")
+}
+
+fn mode_minimize() {
+    let mut s = String::new();
+    std::io::stdin().read_to_string(&mut s).unwrap();
+    let j: Value = serde_json::from_str(&s).unwrap();
+    let entry = if j["entry"] == "derive" { Entry::Derive } else { Entry::Attr };
+    let attr = TokenStream::from_str(j["attr"].as_str().unwrap_or("")).unwrap();
+    let item = TokenStream::from_str(j["item"].as_str().unwrap_or("")).unwrap();
+    let Some(class) = finding_class(entry, &attr, &item) else {
+        println!("{}", json!({"reproduced": false}));
+        return;
+    };
+    let mut a = to_nodes(attr);
+    let mut i = to_nodes(item);
+    loop {
+        let c1 = try_shrink(1, &mut a, &mut i, entry, &class);
+        let c0 = try_shrink(0, &mut a, &mut i, entry, &class);
+        if !c0 && !c1 {
+            break;
+        }
+    }
+    let ats = from_nodes(&a);
+    let its = from_nodes(&i);
+    let mut map = BTreeMap::new();
+    let na = normalize_idents(ats.clone(), &mut map);
+    let ni = normalize_idents(its.clone(), &mut map);
+    println!(
+        "{}",
+        json!({"reproduced": true, "class": class, "attr": ats.to_string(), "item": its.to_string(),
+               "norm": format!("{} #[derive_ex({})] {}", if entry == Entry::Attr {"attr"} else {"derive"}, na, ni)})
     );
 }
